@@ -236,8 +236,9 @@ def root_cause(c, r):
 # ---------------------------------------------------------------- (b) REPL command sequences
 @st.composite
 def repl_case(draw):
-    sess = draw(st.one_of(SS.plain('ctrl'), SS.plain('mixed'), SS.plain('arith')))
-    sess['kw']['sv'] = R.BASE
+    sess = draw(st.one_of(SS.plain('ctrl'), SS.plain('mixed'), SS.plain('arith'), SS.legacy_spend(), SS.tapscript_spend()))
+    if 'spendtx' not in sess['kw']:
+        sess['kw']['sv'] = R.BASE
     n = draw(st.integers(1, 12))
     cmds = []
     for _ in range(n):
@@ -263,7 +264,15 @@ def repl_case(draw):
 
 def repl_json(c):
     kw = c['sess']['kw']
+    if 'spendtx' in kw:
+        return dict(spendtx=kw['spendtx'], spendtxin=kw['spendtxin'], cmds=c['cmds'])
     return dict(script=kw['script'].hex(), stack=[x.hex() for x in kw['stack']], cmds=c['cmds'])
+
+
+def repl_argv(kw):
+    if 'spendtx' in kw:
+        return ['--tx=' + kw['spendtx'], '--txin=' + kw['spendtxin']]
+    return ['0x' + kw['script'].hex()] + ['0x' + x.hex() for x in kw['stack']]
 
 
 def check_repl(c, ctx, variant='asan'):
@@ -271,7 +280,7 @@ def check_repl(c, ctx, variant='asan'):
     if any(not all(32 <= ord(ch) < 127 for ch in cmd) for cmd in c['cmds']):
         return
     ctx.case(repr(repl_json(c)), True, repl_json(c), 'repl')
-    rp = cli.Repl(['0x' + kw['script'].hex()] + ['0x' + x.hex() for x in kw['stack']], variant=variant)
+    rp = cli.Repl(repl_argv(kw), variant=variant)
     blocks, err, status = rp.session(c['cmds'], timeout=40)
     for cmd in c['cmds']:
         ctx.count('repl-cmd:' + (cmd.split(' ')[0] or '(empty)') if cmd.split(' ')[0] in ('step', 'rewind', 'exec', 'tf', 'print', 'stack', 'altstack', 'vfexec', 'help') else 'repl-cmd:other')
@@ -418,7 +427,9 @@ def replay(rec):
         return p.returncode == 0, p.stdout.decode(errors='replace')[-800:]
     ctx = core.Ctx(PID)
     try:
-        if 'cmds' in c:
+        if 'cmds' in c and 'spendtx' in c:
+            check_repl(dict(sess=dict(kw=dict(spendtx=c['spendtx'], spendtxin=c['spendtxin'])), cmds=c['cmds']), ctx)
+        elif 'cmds' in c:
             check_repl(dict(sess=dict(kw=dict(script=bytes.fromhex(c['script']), stack=[bytes.fromhex(x) for x in c['stack']])), cmds=c['cmds']), ctx)
         elif c.get('full_argv') is not None:
             check_cmd(dict(tool=c['tool'], argv=c['full_argv'], stdin=bytes.fromhex(c['stdin']) if isinstance(c['stdin'], str) else b'', component=c['component']), ctx)
